@@ -2,8 +2,9 @@
   C08 – generated tie: `handler.addHandlerContext`, the five `…FromCtx` accessors and the key constants extracted
   from the current message/router.go / router_context.go (`WmModel/Gen/RouteCtx.lean`, rewritten by the extractor on
   every run), interpreted by `WmModel/RouteGo.lean`, behave like the model's `addHandlerContext` / `Ctx.get`:
-  every accessor reads, after `addHandlerContext`, the handler's corresponding field when that is non-empty and
-  whatever it read before otherwise – for all handlers and all previous contexts.
+  every accessor reads, after `addHandlerContext`, the handler's corresponding field – for all handlers (empty
+  fields included) and ALL previous contexts.  With the guarded statements the code had before fix 5846d09 the
+  theorems below do not prove (an empty field would let the previous value through).
 -/
 import WmModel.RouteGo
 import WmModel.Gen.RouteCtx
@@ -12,37 +13,32 @@ namespace Wm.RouteGo
 open Wm.Route
 set_option linter.unusedSimpArgs false
 
-/-- the model's law, per key -/
+/-- the model's law, per key: after `addHandlerContext` accessor `a` reads the handler's field `a` -/
 theorem model_ctx_law (h : HCfg) (c : Ctx) (a : Key) :
-    (addHandlerContext h c).get a = pick (modelField h a) (c.get a) := by
-  cases a <;> simp only [addHandlerContext, modelField, pick, get_setIf_same, get_setIf_other, ne_eq,
-    not_false_eq_true, reduceCtorEq] <;> split <;> simp_all
+    (addHandlerContext h c).get a = modelField h a := by
+  have := ctx_get h c
+  cases a <;> simp [modelField, this]
 
-/-- **tie**: the same law for the code as it stands in the source -/
+/-- **tie**: the same law for the code as it stands in the source, from any Go context -/
 theorem extracted_ctx_law (h : HCfg) (gc : GoCtx) (a : Key) :
     ∃ k, keyOfAcc Gen.ctxCode a = some k ∧
-      (applySets h Gen.ctxCode.sets gc).lookup k = pick (modelField h a) (gc.lookup k) := by
+      (applySets h Gen.ctxCode.sets gc).lookup k = modelField h a := by
   cases a <;> refine ⟨_, rfl, ?_⟩ <;>
-    simp only [Gen.ctxCode, applySets, fldVal, modelField, pick] <;>
-    by_cases h1 : h.name = "" <;> by_cases h2 : h.pubName = "" <;> by_cases h3 : h.subName = "" <;>
-    by_cases h4 : h.subTopic = "" <;> by_cases h5 : h.pubTopic = "" <;>
-    simp [h1, h2, h3, h4, h5, GoCtx.lookup]
+    simp [Gen.ctxCode, applySets, fldVal, modelField, GoCtx.lookup]
 
 /-- the model context `c` describes the Go context `gc`: every accessor reads the model's value -/
 def Describes (c : Ctx) (gc : GoCtx) : Prop :=
   ∀ a, ∃ k, keyOfAcc Gen.ctxCode a = some k ∧ gc.lookup k = c.get a
 
-/-- **tie**: `addHandlerContext` of the source simulates the model's, from any pair of related contexts -/
-theorem extracted_ctx_simulates_model (h : HCfg) (c : Ctx) (gc : GoCtx) (hr : Describes c gc) :
+/-- **tie**: after `addHandlerContext` the source's context is described by the model's – from ANY pair of previous
+    contexts, related or not (whatever was there is hidden) -/
+theorem extracted_ctx_simulates_model (h : HCfg) (c : Ctx) (gc : GoCtx) :
     Describes (addHandlerContext h c) (applySets h Gen.ctxCode.sets gc) := by
   intro a
-  rcases hr a with ⟨k, hk, hv⟩
-  rcases extracted_ctx_law h gc a with ⟨k', hk', hl⟩
-  have : k' = k := by rw [hk] at hk'; exact (Option.some.inj hk').symm
-  subst this
-  exact ⟨k', hk, by rw [hl, model_ctx_law, hv]⟩
+  rcases extracted_ctx_law h gc a with ⟨k, hk, hl⟩
+  exact ⟨k, hk, by rw [hl, model_ctx_law]⟩
 
-/-- the empty contexts are related (all accessors exist and read `""`) -/
+/-- the empty contexts are related (all five accessors exist and read `""`) -/
 theorem extracted_ctx_describes_empty : Describes [] [] := by
   intro a
   cases a <;> exact ⟨_, rfl, rfl⟩
